@@ -5,7 +5,7 @@ from .. import oracle as o
 ID = 'C10'
 RULE = ('one record per KDF call: HKDF-Extract/Expand over SHA-1/256/512/SHA3-256 with L in {0,1,HL-1,HL,HL+1,2HL+1,255HL-1,255HL} must equal RFC 5869 and '
         'L in {255HL+1, 256HL, 256HL+1, 300HL} must be refused (PANIC); PBKDF2 over HMAC-SHA1/256/512, HMAC over truncated BLAKE2 and keyed BLAKE2 itself (PRF output lengths 1..64, not multiples of 4) with c in {1,2,3,4,5,10,100,(4096)} and dkLen '
-        'across block boundaries; scrypt at N = 2^17 and over the grid log2N 1..10 x r 1..8 x p 1..4 with dkLen 1..130 (quick: Latin-square quarter); '
+        'across block boundaries and outputs of 2^26..2^28 bytes (CRC-32 and both ends compared); scrypt at N = 2^17 and over the grid log2N 1..10 x r 1..8 x p 1..4 with dkLen 1..130 (quick: Latin-square quarter); '
         'HKDF is also handed digest objects that already absorbed data or were finalised; every output buffer is pre-filled with a non-zero pattern by the driver; distinct = (function, digest/params, length class)')
 ASSUMPTIONS = ['hashlib.pbkdf2_hmac / hashlib.scrypt (OpenSSL) and own RFC transcriptions pinned by RFC 5869/6070/7914 vectors']
 FLOORS = {'evaluations': 400, 'distinct': 300}
@@ -53,6 +53,14 @@ def gen(tier, seed):
     if thorough:
         yield 'scrypt %s %s 18 2 1 33' % (rng.data(5), rng.data(12))
         yield 'scrypt %s %s 17 3 2 64' % (rng.data(5), rng.data(12))
+    # very long outputs (hundreds of thousands / millions of PBKDF2 blocks; 128 MiB is 2^22 SHA-256 blocks): admissible for every RFC
+    # (dkLen <= (2^32-1)*hLen) and must neither be refused nor wrap; the driver reports CRC-32 plus the first and last 32 bytes
+    yield 'scrypt_big %s %s 1 1 1 %d #huge' % (rng.data(8), rng.data(4), (1 << 27) + 33)
+    yield 'pbkdf2_big sha512 %s %s 1 %d #huge' % (rng.data(8), rng.data(4), (1 << 26) + 65)
+    if thorough:
+        yield 'scrypt_big %s %s 2 2 1 %d #huge' % (rng.data(8), rng.data(4), (1 << 28) + 1)
+        yield 'pbkdf2_big sha1 %s %s 1 %d #huge' % (rng.data(8), rng.data(4), 20 * ((1 << 22) + 1) + 7)
+        yield 'pbkdf2_big sha256 %s %s 1 %d #huge' % (rng.data(8), rng.data(4), (1 << 27) + 31)
     grid = [(ln, r, p) for ln in range(1, 11) for r in range(1, 9) for p in range(1, 5)]
     reps = 2 if thorough else 1
     for rep in range(reps):
@@ -66,8 +74,13 @@ def gen(tier, seed):
         yield 'scrypt %s %s %d %d %d %d' % (rng.data(6), rng.data(4), rng.choice([1, 2, 3]), rng.choice([1, 2, 3]), rng.choice([1, 2]), dk)
 
 
+def _summary(d):
+    import zlib
+    return '%08x:%s:%s' % (zlib.crc32(d), d[:32].hex(), d[-32:].hex())
+
+
 def check(line, toks):
-    f = line.split()
+    f = line.split(' #')[0].split()
     op = f[0]
     hx = lambda b: b.hex() or '-'
     if op == 'hkdf_extract':
@@ -86,15 +99,20 @@ def check(line, toks):
             exp = [hx(hashlib.pbkdf2_hmac(f[1], expand(f[2]), expand(f[3]), int(f[4]), int(f[5])))]
         else:
             exp = [hx(o.pbkdf2(f[1], expand(f[2]), expand(f[3]), int(f[4]), int(f[5])))]
+    elif op == 'scrypt_big':
+        exp = [_summary(o.scrypt(expand(f[1]), expand(f[2]), int(f[3]), int(f[4]), int(f[5]), int(f[6])))]
+    elif op == 'pbkdf2_big':
+        import hashlib
+        exp = [_summary(hashlib.pbkdf2_hmac(f[1], expand(f[2]), expand(f[3]), int(f[4]), int(f[5])))]
     elif op == 'scrypt':
         exp = [hx(o.scrypt(expand(f[1]), expand(f[2]), int(f[3]), int(f[4]), int(f[5]), int(f[6])))]
     if toks != exp:
-        return [('C10:%s:output-mismatch' % op, '%s: expected %s got %s' % (' '.join(f[:2] + f[3:])[:80] if op == 'scrypt' else f[1], exp[0][:64], ' '.join(toks)[:64]))]
+        return [('C10:%s:output-mismatch' % op, '%s: expected %s got %s' % (' '.join(f[:2] + f[3:])[:80] if op.startswith('scrypt') else ' '.join(f[1:2] + f[4:]), exp[0][:64], ' '.join(toks)[:64]))]
     return []
 
 
 def classify(line):
-    f = line.split()
+    f = line.split(' #')[0].split()
     soiled = ('soiled-fin' if f[-1].endswith('/fin') else 'soiled') if f[-1].startswith('soil/') else 'fresh'
     if f[0] == 'hkdf_extract':
         return (f[0], f[1], spec_len(f[2]), spec_len(f[3]), soiled)
@@ -106,7 +124,9 @@ def classify(line):
 
 
 def coverage(line, toks):
-    f = line.split()
+    f = line.split(' #')[0].split()
+    if f[0] in ('scrypt_big', 'pbkdf2_big'):
+        return [f[0], 'kdf:output-of-2^26-bytes-or-more']
     if f[0] == 'scrypt':
         return ['scrypt:r=%s' % f[4], 'scrypt:p=%s' % f[5], 'scrypt:logn=%s' % f[3]]
     if f[0] == 'hkdf_expand':
@@ -121,7 +141,7 @@ def coverage(line, toks):
 def san_subset(lines):
     out = []
     for l in lines:
-        f = l.split()
+        f = l.split(' #')[0].split()
         if f[0] == 'scrypt' and int(f[3]) <= 3 and int(f[4]) <= 3 and int(f[6]) in (1, 33, 64, 130):
             out.append(l)
         elif f[0] == 'pbkdf2' and int(f[4]) <= 3:
